@@ -16,7 +16,7 @@ from .C12 import is_effect_on, WRITE_EFFECTS
 
 FILESET = "typhon/files/fileset.py"
 HCOMMON = "typhon/files/handlers/common.py"
-EXPECT = {"C11.args": 4, "C11.bind": 4, "C11.delete": 3, "C11.move": 6, "C11.write": 7, "C11.pure": 2, "C11.handlers": 3, "C11.items": 2, "C11.ncread": 1}
+EXPECT = {"C11.args": 4, "C11.bind": 4, "C11.delete": 3, "C11.move": 7, "C11.write": 7, "C11.pure": 2, "C11.handlers": 3, "C11.items": 2, "C11.ncread": 1}
 
 
 def _method_ref(ctx, node):
@@ -292,6 +292,55 @@ def rule_move(ctx):
     okm = okm and isinstance(g0, ast.If) and "isinstance(%s, FileSet)" % m.params[1] in norm(g0.test)
     ctx.ob("FileSet.move.destination", okm, "%s ... return %s" % (norm(g0.test) if isinstance(g0, ast.If) else None, norm(rets[-1].value) if rets else None),
            "a string target becomes a copy of this fileset with the new path; the destination fileset is returned", node=g0, func=m)
+    # move(): what the caller asked for (`convert`, `copy`) reaches the worker as given.  The only re-definition the confirmed tree has is
+    # `convert = False` under `convert is None`; a constant falsy value assigned under any other condition drops a conversion the caller asked
+    # for (the source's read_args / post_reader and the destination's write_args are then never applied) - a recognised-wrong construct;
+    # any other re-definition is outside what the rule can read (no verdict).
+    from ..flow import guard_chain as _gc
+    redefs, bad, unread = [], [], []
+    for st in walk_no_nested(m.node):
+        tg = []
+        if isinstance(st, ast.Assign):
+            for t_ in st.targets:
+                tg += [n_ for n_ in ast.walk(t_) if isinstance(n_, ast.Name)]
+        elif isinstance(st, (ast.AugAssign, ast.AnnAssign)) and isinstance(st.target, ast.Name):
+            tg = [st.target]
+        for n_ in tg:
+            if n_.id not in ("convert", "copy") or n_.id not in m.all_params:
+                continue
+            gtxt = sorted(("%s" if pol else "not (%s)") % norm(t) for t, pol in _gc(st, implicit=True))
+            val = getattr(st, "value", None)
+            const_false = isinstance(val, ast.Constant) and not val.value
+            redefs.append("%s under %s" % (norm(st), gtxt or "no condition"))
+            if n_.id == "convert" and const_false and gtxt == ["convert is None"]:
+                continue
+            if n_.id == "convert" and val is not None and ((not gtxt and norm(val) in (
+                    "False if convert is None else convert", "convert if convert is not None else False", "convert or False", "bool(convert)")) or norm(val) == n_.id):
+                continue            # other spellings of None -> False that keep every truthy value truthy
+            if const_false and isinstance(st, ast.Assign):
+                bad.append((st, "%s under %s" % (norm(st), gtxt or "no condition")))
+            else:
+                unread.append("%s under %s" % (norm(st), gtxt or "no condition"))
+    if unread and not bad:
+        raise AnalysisError("FileSet.move re-defines what the caller asked for in a form the rule cannot read: %s" % "; ".join(unread)[:300])
+    fw = [c for c in calls_in(m.node, "_move_single_file")]
+    kw = [d_ for d_ in ast.walk(m.node) if isinstance(d_, ast.Dict) and any(isinstance(k_, ast.Constant) and k_.value == "convert" for k_ in d_.keys)]
+    okf = True
+    seen = []
+    for c in fw:
+        a = [norm(x) for x in c.args]
+        seen.append(norm(c))
+        okf = okf and len(a) >= 5 and a[3] == "convert" and a[4] == "copy"
+    for d_ in kw:
+        mp = {k_.value: norm(v_) for k_, v_ in zip(d_.keys, d_.values) if isinstance(k_, ast.Constant)}
+        seen.append(norm(d_))
+        okf = okf and mp.get("convert") == "convert" and mp.get("copy") == "copy"
+    if not fw and not kw:
+        raise AnalysisError("FileSet.move: neither a direct call of _move_single_file nor a keyword dictionary with 'convert' found")
+    ctx.ob("FileSet.move.forward", okf and not bad, "re-definitions: %s; handed on: %s" % (redefs or "none", [s_[:80] for s_ in seen]),
+           "the caller's `convert` and `copy` reach _move_single_file as given (only None -> False): a truthy `convert` always converts "
+           "through both handlers", node=bad[0][0] if bad else m.node, func=m,
+           witness=None if (okf and not bad) else {"move": "fs.move(target, convert=True) with a post_reader / write_args", "dropped by": bad[0][1] if bad else "forwarding"})
 
 
 def rule_write(ctx):
